@@ -344,7 +344,9 @@ fn dispatch(args: &[String], w: &mut dyn Write) {
 }
 
 fn main() {
-    std::panic::set_hook(Box::new(|_| {}));
+    if std::env::var_os("PROBE_VERBOSE").is_none() {
+        std::panic::set_hook(Box::new(|_| {}));
+    }
     let args: Vec<String> = std::env::args().skip(1).collect();
     let stdout = std::io::stdout();
     if args.first().map(String::as_str) == Some("serve") {
